@@ -282,6 +282,13 @@ func Sorts(w *W, maxLen int, lrng *rand.Rand) {
 			v.Out = iterator.Collect(xsort.Merge(lessKey, its...))
 		})
 		w.call(Vec{Fn: "MergeSlices", SS: ss}, func(v *Vec) { v.Out = xsort.MergeSlices(lessKey, nil, in...) })
+		// the documented "pre-allocated out": a buffer that still holds old contents, with and without enough capacity
+		w.call(Vec{Fn: "MergeSlices", SS: ss}, func(v *Vec) {
+			buf := make([]int, 2, 64)
+			buf[0], buf[1] = 991, 992
+			v.Out = xsort.MergeSlices(lessKey, buf, in...)
+		})
+		w.call(Vec{Fn: "MergeSlices", SS: ss}, func(v *Vec) { v.Out = xsort.MergeSlices(lessKey, []int{993}, in...) })
 	}
 	for _, s := range seqs(3, maxLen) {
 		a := make([]int, len(s))
@@ -290,6 +297,15 @@ func Sorts(w *W, maxLen int, lrng *rand.Rand) {
 		}
 		for k := 0; k <= len(a)+1; k++ {
 			w.call(Vec{Fn: "MinK", A: cp(a), X: k}, func(v *Vec) { v.Out = xsort.MinK(lessKey, iterator.Slice(cp(a)), k) })
+		}
+		// extreme counts: "fewer than k items: all of them" holds for any k, a negative k yields nothing (the count is
+		// logged clipped to 32 bits, TLC's integer range)
+		for _, k := range []int{-3, -1, math.MaxInt, math.MaxInt - 1, math.MaxInt / 2} {
+			lk := k
+			if lk > math.MaxInt32 {
+				lk = math.MaxInt32
+			}
+			w.call(Vec{Fn: "MinK", A: cp(a), X: lk}, func(v *Vec) { v.Out = xsort.MinK(lessKey, iterator.Slice(cp(a)), k) })
 		}
 		w.call(Vec{Fn: "SliceSort", A: cp(a)}, func(v *Vec) {
 			t := cp(a)
